@@ -338,6 +338,9 @@ pub fn run_full(sx: &Sx, hist: &[Op], expect: Option<&[u64]>) -> Result<RunOk, F
         }
         // ---- continuation after a restore equals the continuation recorded the first time
         if let Op::Restore(i) = op {
+            // a restore starts a new continuation; the ones started by earlier restores end here (the state
+            // they were following is gone)
+            trackers.clear();
             let p = snap_pos[*i as usize];
             if model.inputs == inputs_at[p] {
                 out.continuation_compares += 1;
@@ -505,6 +508,16 @@ pub fn search(sx: &Sx, depth: usize, budget: &Budget, stats: &mut Stats) -> Vec<
                     for i in 0..r.model.snaps.len() {
                         let mut hp = h.clone();
                         hp.push(Op::Restore(i as u32));
+                        match run_full(sx, &hp, Some(&r.read_hashes)) {
+                            Err(f) => failed(hp.clone(), f, stats),
+                            Ok(rp) => {
+                                account(&rp, stats);
+                                stats.probes += 1;
+                            }
+                        }
+                        // ... and the restored state must behave like the original one: one step from it
+                        // (hidden per-object state that a restore fails to reset shows here)
+                        hp.push(Op::Step);
                         match run_full(sx, &hp, Some(&r.read_hashes)) {
                             Err(f) => failed(hp, f, stats),
                             Ok(rp) => {
@@ -689,7 +702,7 @@ pub fn report(spec: &SysSpec, hist: &[Op], order: u64, rep: &Report) {
 // ------------------------------------------------------------------ driver
 
 pub fn meta(rep: &mut Report) {
-    rep.rule = "breadth-first search over operation histories (init Zero / Random(0) / Random(1), set(input, v) for all values up to width 2 else {0,1,ones}, step, take_snapshot, restore_snapshot(id) for every id taken so far) of the real patronus::sim::Interpreter on the S1 sweep of skeletons K1,K2,K3,K5,K7 (quick: first 8 pool elements, thorough: full pools) plus hand-built swap/delay/count2/delayin/shadow memories and a 130-bit delay line; depth 6 (quick) / 7 (thorough) operations plus a closing restore probe of every snapshot; a fresh Interpreter replays every history, every sub-expression of the system is read with get after every operation and compared with a reference simulator on pvcore::tsref/eval_ref; search states are merged on (reference state values, reference input values, ordered snapshot contents). evaluations = histories executed on a fresh real Interpreter; distinct_nontrivial = distinct (system, reference key) search states in which at least one state or input value differs from the all-zero start (the simulator had to compute or store something)".into();
+    rep.rule = "breadth-first search over operation histories (init Zero / Random(0) / Random(1), set(input, v) for all values up to width 2 else {0,1,ones}, step, take_snapshot, restore_snapshot(id) for every id taken so far) of the real patronus::sim::Interpreter on the S1 sweep of skeletons K1,K2,K3,K5,K7 (quick: first 8 pool elements, thorough: full pools) plus hand-built swap/delay/count2/delayin/shadow memories and a 130-bit delay line; depth 6 (quick) / 7 (thorough) operations plus a closing probe of every snapshot (restore, read everything; then one step, read everything) on every history that is merged or left unexpanded; a fresh Interpreter replays every history, every sub-expression of the system is read with get after every operation and compared with a reference simulator on pvcore::tsref/eval_ref; search states are merged on (reference state values, reference input values, ordered snapshot contents). evaluations = histories executed on a fresh real Interpreter; distinct_nontrivial = distinct (system, reference key) search states in which at least one state or input value differs from the all-zero start (the simulator had to compute or store something)".into();
     rep.assumptions = vec![
         "every history starts with init (get/set/step before init have no values by design); set only on bit-vector inputs; init expressions read earlier states only".into(),
         "values of init-less states and of inputs after init(Random), of next-less states after step and of inputs after restore are adopted from the simulator (unspecified by the property); inputs after restore must be the pre-restore or the snapshot-time inputs".into(),
